@@ -90,6 +90,8 @@ def handle (fields : List String) : String :=
     encStr (mdBlockCode mk (decStr info) (decStr code))
   | ["md_heading", level, text] => encStr (mdHeading level.toNat! (decStr text))
   | ["md_thematic_break"] => encStr mdThematicBreak
+  | ["md_block_quote", inner] => encStr (mdBlockQuote (decStr inner))
+  | ["md_indent_all", pre, text] => encStr (indentAll (decStr pre) (decStr text))
   | ["split", s] => encList (splitWs isSpace (decStr s))
   | ["strip", s] => encStr (stripWs isSpace (decStr s))
   | ["fold", s] => encStr ((decStr s).flatMap foldChar)
